@@ -55,7 +55,7 @@ def le32(n: int) -> bytes:
 
 def body_fields(kind: str, a: Dict[str, Any]) -> List[Tuple[str, bytes]]:
     """Bytes after the 40-byte header, as (field name, bytes) pieces."""
-    dev = ("device_id", a["device_id"])
+    dev = ("device_id", a.get("device_id", b""))
     if kind == "login1":
         return [("login_key", a["key"]), ("fixed", Z * 37)]
     if kind == "login2":
